@@ -106,6 +106,15 @@ func NewFactoryFunction(
 	}
 }
 
+// aliasPath returns an alias for the package imported by the generated code itself,
+// aliases defined by users in meta.imports must not be applied to it.
+func (f *FactoryFunction) aliasPath(path string) string {
+	if p, ok := f.aliaser.(interface{ AliasPath(string) string }); ok {
+		return p.AliasPath(path)
+	}
+	return f.aliaser.Alias(path)
+}
+
 func (f *FactoryFunction) Supports(expr string) bool {
 	e, ok := toExpr(expr)
 	if !ok {
@@ -136,7 +145,7 @@ func (f *FactoryFunction) Create(expr string) (Token, error) {
 	body := fmt.Sprintf(
 		`r, err = %s; if err != nil { err = %s.Errorf("%%s: %%w", %s, err) }; return`,
 		callFn,
-		f.aliaser.Alias("fmt"),
+		f.aliasPath("fmt"),
 		exporter.MustExport(fmt.Sprintf("cannot execute %s", expr)),
 	)
 
